@@ -24,8 +24,15 @@ def err(e):
     return {'err': type(e).__name__, 'msg': str(e)[:200]}
 
 
-def arr(a):
-    return np.array(a, dtype='d')
+def arr(a, dt=None):
+    """the values as float64, or in the storage type asked for (the generator only asks for a type that holds them exactly)"""
+    x = np.array(a, dtype='d')
+    if dt and dt != 'f8':
+        y = x.astype(dt)
+        if not np.array_equal(y.astype('d'), x):
+            raise ValueError('harness: values not representable in %s' % dt)
+        return y
+    return x
 
 
 def tolist(a):
@@ -42,8 +49,22 @@ class RecordingHMF(HMF):
     def __init__(self, *a, **k):
         super().__init__(*a, **k)
         self.trace = []
+        self.events = []      # (method, a at the call, g at the call): the state the real loop hands to each step
+
+    def _ev(self, name):
+        self.events.append((name, None if self.a is None else np.array(self.a, dtype='d', copy=True),
+                            None if self.g is None else np.array(self.g, dtype='d', copy=True)))
+
+    def reorder(self):
+        self._ev('reorder')
+        return super().reorder()
+
+    def normbase(self):
+        self._ev('normbase')
+        return super().normbase()
 
     def astep(self):
+        self._ev('astep')
         before = float(self.badness())
         new = super().astep()
         old = self.a
@@ -54,6 +75,7 @@ class RecordingHMF(HMF):
         return new
 
     def gstep(self):
+        self._ev('gstep')
         before = float(self.badness())
         new = super().gstep()
         old = self.g
@@ -64,14 +86,37 @@ class RecordingHMF(HMF):
         return new
 
     def astepnn(self):
+        self._ev('astepnn')
         new = super().astepnn()
         self.trace.append(['ann', float(np.min(new)), float(np.min(self.a))])
         return new
 
     def gstepnn(self):
+        self._ev('gstepnn')
         new = super().gstepnn()
         self.trace.append(['gnn', float(np.min(new)), float(np.min(self.g))])
         return new
+
+
+def loop_passes(h, final_a, final_g, nonneg, which):
+    """the states the real HMF.iterate loop handed to its steps, grouped by pass of the loop.
+    One pass: default mode astep, gstep, reorder, normbase ; non-negative mode astepnn, gstepnn, normbase."""
+    ev = h.events
+    second = 'gstepnn' if nonneg else 'gstep'
+    idx = [k for k, e in enumerate(ev) if e[0] == second]
+    width = 3 if nonneg else 4
+    out = []
+    for m, k in enumerate(idx):
+        if m not in which and (m - len(idx)) not in which:
+            continue
+        grp = ev[k - 1:k - 1 + width]
+        names = [e[0] for e in grp]
+        nxt = ev[k - 1 + width] if k - 1 + width < len(ev) else ('end', final_a, final_g)
+        states = [[tolist(e[1]), tolist(e[2])] for e in grp] + [[tolist(nxt[1]), tolist(nxt[2])]]
+        gn = grp[-1][2]
+        out.append({'pass': m, 'calls': names, 'next': nxt[0], 'states': states,
+                    'norm': tolist(np.sqrt((gn ** 2).mean(1)))})
+    return out, len(idx), [e[0] for e in ev]
 
 
 class Guard(object):
@@ -96,6 +141,12 @@ def read_orders(make, orders):
         vals = {}
         for name in order:
             vals[name] = np.array(getattr(obj, name), dtype='d', copy=True)
+        # second read of every attribute of the SAME object, in the reverse order: the cached values must not move
+        for name in reversed(order):
+            again = np.array(getattr(obj, name), dtype='d', copy=True)
+            if again.shape != vals[name].shape or not np.array_equal(again, vals[name], equal_nan=True):
+                bad.append({'order': list(order) + ['again:' + name], 'attr': name, 'maxdiff': 'second read differs'})
+                break
         changed.update(guard.changed())
         if first is None:
             first = vals
@@ -116,7 +167,8 @@ def call(c):
         with warnings.catch_warnings():
             warnings.simplefilter('ignore')
             if f == 'chi2':
-                b, sq, A = arr(c['b']), arr(c['sq']), arr(c['A'])
+                dts = c.get('dtypes') or {}
+                b, sq, A = arr(c['b'], dts.get('b')), arr(c['sq'], dts.get('sq')), arr(c['A'], dts.get('A'))
                 if c.get('one_d'):
                     A = A[:, 0]
                 names = ['acoeff', 'chi2', 'yfit', 'dof', 'covar', 'var']
@@ -125,13 +177,15 @@ def call(c):
                     b1, s1, A1 = b.copy(), sq.copy(), A.copy()
                     return computechi2(b1, s1, A1), Guard(bvec=b1, sqivar=s1, amatrix=A1)
                 v, bad, changed = read_orders(make, [names] + [o_ for o_ in c.get('orders', []) if sorted(o_) == sorted(names)])
+                o1 = computechi2(b.copy(), sq.copy(), A.copy())
                 out = {'acoeff': tolist(v['acoeff']), 'chi2': float(v['chi2']), 'yfit': tolist(v['yfit']), 'dof': int(v['dof']),
-                       'covar': tolist(v['covar']), 'var': tolist(v['var']), 'order_dependent': bad, 'args_changed': changed}
+                       'covar': tolist(v['covar']), 'var': tolist(v['var']), 'order_dependent': bad, 'args_changed': changed,
+                       'result_dtypes': {k: str(np.asarray(getattr(o1, k)).dtype) for k in names}}
                 if not finite(*[v[k] for k in names]):
                     return {'err': 'nonfinite'}
                 return {'ok': out}
             if f == 'pcomp':
-                x = arr(c['x'])
+                x = arr(c['x'], c.get('dtype'))
                 names = ['eigenvalues', 'coefficients', 'derived', 'variance']
 
                 def make():
@@ -145,8 +199,8 @@ def call(c):
                     return {'err': 'nonfinite', 'eigenvalues': [repr(q) for q in np.asarray(v['eigenvalues']).tolist()]}
                 return {'ok': out}
             if f == 'hmf_step':
-                s, w, a, g = arr(c['s']), arr(c['w']), arr(c['a']), arr(c['g'])
-                h = HMF(s.copy(), w.copy(), K=a.shape[1], epsilon=c.get('eps'), nonnegative=False)
+                s, w, a, g = arr(c['s'], c.get('dtype')), arr(c['w'], c.get('dtype')), arr(c['a']), arr(c['g'])
+                h = HMF(s.copy(), w.copy(), K=a.shape[1], epsilon=c.get('eps'), nonnegative=bool(c.get('nonnegative', False)))
                 h.a, h.g = a.copy(), g.copy()
                 out = {}
                 out['badness'] = float(h.badness())
@@ -168,7 +222,7 @@ def call(c):
                     return {'err': 'nonfinite'}
                 return {'ok': out}
             if f == 'hmf_solve':
-                s, w = arr(c['s']), arr(c['w'])
+                s, w = arr(c['s'], c.get('dtype')), arr(c['w'], c.get('dtype'))
                 runs = []
                 for _rep in range(2):
                     # the two runs start from DIFFERENT global RNG states: only the seed argument may make them agree
@@ -178,7 +232,12 @@ def call(c):
                     h = RecordingHMF(s1, w1, K=c['K'], n_iter=c['n_iter'], seed=c['seed'],
                                      nonnegative=bool(c['nonnegative']), epsilon=c.get('eps'))
                     d = h.solve()
-                    runs.append({'a': d['acoeff'], 'g': d['flux'], 'trace': h.trace,
+                    passes = None
+                    if _rep == 0:
+                        passes, npass, names = loop_passes(h, d['acoeff'], d['flux'], bool(c['nonnegative']), c.get('trace_passes', []))
+                        passes = {'passes': passes, 'n_passes': npass, 'spectra': tolist(h.spectra), 'invvar': tolist(h.invvar),
+                                  'n_init_nn': sum(1 for _n in names[:names.index('gstepnn')] if _n == 'astepnn') - 1 if c['nonnegative'] and 'gstepnn' in names else 0}
+                    runs.append({'a': d['acoeff'], 'g': d['flux'], 'trace': h.trace, 'loop': passes,
                                  'inputs_unchanged': bool(np.array_equal(s1, s) and np.array_equal(w1, w)),
                                  'rms': tolist(np.sqrt((d['flux'] ** 2).mean(1)))})
                 r0, r1 = runs
@@ -212,13 +271,34 @@ def call(c):
                        'shape_a': list(r0['a'].shape), 'shape_g': list(r0['g'].shape),
                        'inputs_unchanged': r0['inputs_unchanged'] and r1['inputs_unchanged'],
                        'min_a': float(np.min(r0['a'])), 'min_g': float(np.min(r0['g'])),
-                       'finite': finite(r0['a'], r0['g']), 'rms': r0['rms'], 'trace': r0['trace']}
+                       'finite': finite(r0['a'], r0['g']), 'rms': r0['rms'], 'trace': r0['trace'], 'loop': r0['loop']}
                 return {'ok': out}
             if f == 'pca':
-                flux, ivar = arr(c['flux']), arr(c['ivar'])
+                flux, ivar = arr(c['flux'], c.get('dtype')), arr(c['ivar'], c.get('dtype'))
                 f0, i0 = flux.copy(), ivar.copy()
-                d = pca_solve(flux, ivar, nkeep=c['nkeep'], niter=c.get('niter', 10), maxiter=c.get('maxiter', 0),
-                              nreturn=c.get('nreturn'))
+                # observe what pca_solve hands to pcomp in every inner pass (the class is looked up in the package at call time)
+                seen = []
+                orig = pydl.pcomp
+
+                class SeenPcomp(orig):
+                    def __init__(self, x, *a, **k):
+                        self.seen_x = np.array(x, dtype='d', copy=True)
+                        self.seen_opts = [list(map(repr, a)), {kk: repr(vv) for kk, vv in k.items()}]
+                        seen.append(self)
+                        super().__init__(x, *a, **k)
+                pydl.pcomp = SeenPcomp
+                try:
+                    d = pca_solve(flux, ivar, nkeep=c['nkeep'], niter=c.get('niter', 10), maxiter=c.get('maxiter', 0),
+                                  nreturn=c.get('nreturn'))
+                finally:
+                    pydl.pcomp = orig
+                passes = [{'x': tolist(o.seen_x.T), 'pres': tolist(o.derived), 'eigenvalues': tolist(o.eigenvalues),
+                           'coefficients': tolist(o.coefficients), 'variance': tolist(o.variance), 'opts': o.seen_opts}
+                          for o in seen]
+                nret = c.get('nreturn') or c['nkeep']
+                last = seen[-1] if seen else None
+                flux_is_derived = bool(last is not None and np.array_equal(d['flux'], np.asarray(last.derived)[:, 0:nret].T.astype('f'))
+                                       and np.array_equal(d['eigenval'], np.asarray(last.eigenvalues)[0:nret]))
                 # the same call again on fresh copies, after the caller edited what the first call returned
                 keep = {k: np.array(d[k], copy=True) for k in ('flux', 'acoeff', 'eigenval')}
                 for k in ('flux', 'acoeff'):
@@ -230,6 +310,10 @@ def call(c):
                 out = {'flux': tolist(d['flux']), 'acoeff': tolist(d['acoeff']), 'eigenval': tolist(d['eigenval']),
                        'usemask': [int(v) for v in np.asarray(d['usemask']).tolist()],
                        'flux_dtype': str(d['flux'].dtype), 'repeatable': bool(repeatable),
+                       'outmask': np.asarray(d['outmask'], dtype='d').tolist(), 'n_pcomp_calls': len(seen),
+                       'flux_is_derived': flux_is_derived,
+                       'passes': [dict(passes[k], k=k, x_next=(passes[k + 1]['x'] if k + 1 < len(passes) else None))
+                                  for k in sorted(set(kk % len(passes) for kk in c.get('trace_passes', [])))] if passes else [],
                        'inputs_unchanged': bool(np.array_equal(flux, f0) and np.array_equal(ivar, i0))}
                 if not finite(d['flux'], d['acoeff'], d['eigenval']):
                     return {'err': 'nonfinite'}
